@@ -25,6 +25,7 @@ import (
 	"sync"
 	"time"
 
+	"github.com/chrislusf/seaweedfs/weed/filer"
 	"github.com/chrislusf/seaweedfs/weed/pb/filer_pb"
 	"github.com/chrislusf/seaweedfs/weed/util"
 
@@ -506,13 +507,97 @@ func (w *world) reset(d *lib.TreeDump) {
 func (w *world) runSeq(ops []op) (completed bool) {
 	w.hist = nil
 	w.r.Case(map[string]interface{}{"store": w.fw.Kind, "ops": ops})
-	w.startCase(len(ops))
+	if len(ops) > 0 && ops[0].Kind == "setup-big" {
+		w.renew()
+	} else {
+		w.startCase(len(ops))
+	}
 	for _, o := range ops {
+		if o.Kind == "setup-big" {
+			n, _ := strconv.Atoi(o.Tag)
+			w.hist = append(w.hist, o)
+			w.buildBig(o.Path, n)
+			continue
+		}
 		if !w.step(o) {
 			return false
 		}
 	}
 	return true
+}
+
+// ---------------------------------------------------------------------------
+// large directories: more children than one listing page (filer.PaginationSize = 1024), with
+// non-empty sub-directories at the page boundaries
+
+func bigBoundary(n int) []int {
+	var out []int
+	for _, i := range []int{0, 1022, 1023, 1024, 1025, 2047, 2048, n - 1} {
+		if i >= 0 && i < n && (len(out) == 0 || out[len(out)-1] != i) {
+			out = append(out, i)
+		}
+	}
+	return out
+}
+
+func bigUniverse(n int) []string {
+	u := []string{"/big", "/moved", "/p", "/p/big"}
+	for _, root := range []string{"/big", "/moved", "/p/big"} {
+		for _, i := range bigBoundary(n) {
+			c := fmt.Sprintf("%s/c%04d", root, i)
+			u = append(u, c, c+"/x", c+"/y", c+"/y/z")
+		}
+		c := root + "/c1024b"
+		u = append(u, c, c+"/x", c+"/y", c+"/y/z")
+	}
+	return u
+}
+
+// buildBig fills root with n children c0000.. directly in the real store (harness-side set-up,
+// not an operation under test): files, except at the page boundaries where the child is a
+// directory holding a file x and a directory y with a file z. The model gets the same tree.
+func (w *world) buildBig(root string, n int) {
+	ctx := context.Background()
+	put := func(p string, isDir bool) {
+		tag := w.tag()
+		mode := os.FileMode(0644)
+		if isDir {
+			mode = os.ModeDir | 0755
+		}
+		e := &filer.Entry{FullPath: util.FullPath(p), Attr: filer.Attr{Mtime: time.Unix(1600000000, 0), Crtime: time.Unix(1600000000, 0), Mode: mode, Uid: 1000, Gid: 1000},
+			Extended: map[string][]byte{"tag": []byte(tag)}}
+		if !isDir {
+			e.Content = []byte("content of " + tag)
+		}
+		w.r.Must(w.fw.Raw.InsertEntry(ctx, e), "set up large directory")
+		w.model[p] = node{IsDir: isDir, Tag: tag}
+	}
+	for _, a := range ancestors(root) {
+		if _, ok := w.model[a]; !ok {
+			put(a, true)
+		}
+	}
+	put(root, true)
+	isB := map[int]bool{}
+	for _, i := range bigBoundary(n) {
+		isB[i] = true
+	}
+	for i := 0; i < n; i++ {
+		c := fmt.Sprintf("%s/c%04d", root, i)
+		put(c, isB[i])
+		if isB[i] {
+			put(c+"/x", false)
+			put(c+"/y", true)
+			put(c+"/y/z", false)
+		}
+	}
+	w.universe = bigUniverse(n)
+	// the set-up itself is checked: the dump must equal the model before anything is judged
+	if cl, p := diff(realTree(w.fw.Dump(w.universe)), w.model); cl != "" {
+		w.r.Inconclusive("large-directory set-up does not read back: " + cl + " at " + p)
+	}
+	w.r.Count("large_directories_built", 1)
+	w.r.Count("large_directory_entries", int64(len(w.model)))
 }
 
 // startCase gives the next case an empty namespace (wipe, or a fresh store every ~450 ops).
@@ -768,6 +853,46 @@ func runBatch(r *lib.Run, mode, kind string, shard, nshards, sampleOneIn int) {
 		r.Note("exhaustive_spaces", spaceNotes)
 		r.Note("ops_by_kind_class_outcome", w.stats)
 		r.Count("store_calls", w.fw.Store.Total())
+	case "big":
+		w := newWorld(r, kind, bm, bigUniverse(2049))
+		sizes := []int{1023, 1024, 1025, 2049}
+		if r.Thorough() {
+			sizes = append(sizes, 2048, 3073)
+		}
+		for _, n := range sizes {
+			for _, variant := range []string{"delete", "hdelete", "rename", "nested"} {
+				if variant == "nested" && n != 1025 && n != 2049 {
+					continue
+				}
+				setup := op{Kind: "setup-big", Path: "/big", Tag: fmt.Sprint(n)}
+				var ops []op
+				switch variant {
+				case "delete":
+					ops = []op{setup, {Kind: "delete", Path: "/big", DeleteData: true}, {Kind: "delete", Path: "/big", Recursive: true, DeleteData: true}}
+				case "hdelete":
+					ops = []op{setup, {Kind: "hdelete", Path: "/big", Recursive: true, IgnoreErr: true}}
+				case "rename":
+					ops = []op{setup, {Kind: "rename", Path: "/big", Dst: "/moved"}, {Kind: "delete", Path: "/moved", Recursive: true, DeleteData: true}}
+				case "nested":
+					setup.Path = "/p/big"
+					ops = []op{setup, {Kind: "rename", Path: "/p/big/c1024", Dst: "/p/big/c1024b"}, {Kind: "delete", Path: "/p", Recursive: true, DeleteData: true}}
+				}
+				okBefore := successCount(r)
+				w.runSeq(ops)
+				r.Count("sequences_large_directory", 1)
+				if successCount(r) > okBefore {
+					r.Nontrivial(seqKey(kind, w, ops) + "|" + setup.Tag)
+				}
+				if n == 1025 && variant == "delete" {
+					r.Sample(map[string]interface{}{"store": kind, "ops": ops})
+				}
+				if r.Violations() > 20 {
+					break
+				}
+			}
+		}
+		r.Note("ops_by_kind_class_outcome", w.stats)
+		r.Count("store_calls", w.fw.Store.Total())
 	case "rand":
 		uni := universeRand()
 		w := newWorld(r, kind, bm, uni)
@@ -820,7 +945,7 @@ func successCount(r *lib.Run) int64 {
 
 func main() {
 	r := lib.Start("C18", "exploration")
-	r.SetRule("operation sequences (create file/dir incl. implicit parents, UpdateEntry, DeleteEntry and DeleteEntryMetaAndData with recursive/ignoreRecursiveError/deleteData flags, AtomicRenameEntry incl. onto existing targets, onto ancestors, into the mover's own subtree and across buckets) on a real Filer over leveldb/leveldb2/leveldb3; after every op the whole namespace is dumped and compared with a reference tree. Bounded-exhaustive (every prefix is judged too): quick all sequences of length 2 over a 33-op alphabet and of length 3 over a 16-op core alphabet, thorough length 3 over the 33 ops and length 4 over 12 ops; complete on leveldb, seeded sample on leveldb2/leveldb3; random: seeded sequences of 40 (quick) / 60 (thorough) ops over names {a,b,c} to depth 3 plus /buckets/{x,y}. distinct = distinct (store, op sequence); non-trivial = at least one operation succeeded")
+	r.SetRule("operation sequences (create file/dir incl. implicit parents, UpdateEntry, DeleteEntry and DeleteEntryMetaAndData with recursive/ignoreRecursiveError/deleteData flags, AtomicRenameEntry incl. onto existing targets, onto ancestors, into the mover's own subtree and across buckets) on a real Filer over leveldb/leveldb2/leveldb3; after every op the whole namespace is dumped and compared with a reference tree. Bounded-exhaustive (every prefix is judged too): quick all sequences of length 2 over a 33-op alphabet and of length 3 over a 16-op core alphabet, thorough length 3 over the 33 ops and length 4 over 12 ops; complete on leveldb, seeded sample on leveldb2/leveldb3; large directories: 1023/1024/1025/2049 children (files, and non-empty sub-directories at the listing-page boundaries) built directly in the store, then non-recursive delete (must be refused), recursive delete by both routes, rename to a free name and delete, rename of a boundary child and recursive delete of the grandparent; random: seeded sequences of 40 (quick) / 60 (thorough) ops over names {a,b,c} to depth 3 plus /buckets/{x,y}. distinct = distinct (store, op sequence); non-trivial = at least one operation succeeded")
 	r.Assume("a spurious refusal that leaves the namespace unchanged is not a violation (the statement only says which operations must be refused)")
 	r.Assume("rename onto an existing target of the same type is judged as a simultaneous move/merge; a refused rename must leave the namespace unchanged (no loss, no duplication)")
 	r.Assume("non-termination is judged by a logical bound: more than 20 store calls per entry of the moved subtree (+60) in one rename")
@@ -876,6 +1001,9 @@ func main() {
 		jobs = append(jobs, job{"exh-" + k, []string{"exh", k, "0", "1", fmt.Sprint(r.Pick(10, 5))}})
 	}
 	for _, k := range lib.FilerStoreKinds {
+		jobs = append(jobs, job{"big-" + k, []string{"big", k, "0", "1", "1"}})
+	}
+	for _, k := range lib.FilerStoreKinds {
 		rs := r.Pick(1, 2)
 		for s := 0; s < rs; s++ {
 			jobs = append(jobs, job{fmt.Sprintf("rand-%s-%d", k, s), []string{"rand", k, fmt.Sprint(s), fmt.Sprint(rs), "1"}})
@@ -901,6 +1029,14 @@ func main() {
 	}
 	r.Count("total_state_changing_ok", okOps)
 	r.Count("total_must_fail_refused", refused)
+	var big int64
+	for _, k := range lib.FilerStoreKinds {
+		big += r.Counter("big-" + k + ".large_directories_built")
+	}
+	r.Count("total_large_directories_built", big)
+	if big == 0 {
+		r.Inconclusive("no large directory was built")
+	}
 	if okOps == 0 || refused == 0 {
 		r.Inconclusive("no successful state-changing operation or no refused must-fail operation observed")
 	}
